@@ -156,6 +156,7 @@ type runner struct {
 	flags      map[string]bool
 	counts     map[string]int
 	fail       *finding
+	mm         *finding
 }
 
 func newRunner(drv *hx.Driver) *runner {
@@ -170,10 +171,21 @@ func (r *runner) violation(format string, a ...any) {
 	}
 }
 
+// mismatch records a disagreement between model and implementation. The model
+// is dropped and the history continues under the monitor alone: when the
+// implementation also breaks the property itself, that is what gets reported.
 func (r *runner) mismatch(name, what, exp, act string) {
-	if r.fail == nil {
-		r.fail = &finding{kind: "mismatch", what: what, name: name, exp: exp, act: act}
+	if r.mm == nil {
+		r.mm = &finding{kind: "mismatch", what: what, name: name, exp: exp, act: act}
 	}
+	r.drv = nil
+}
+
+func (r *runner) result() *finding {
+	if r.fail != nil {
+		return r.fail
+	}
+	return r.mm
 }
 
 func (r *runner) ask(line string) string {
@@ -393,7 +405,34 @@ func (o implOut) String() string {
 
 // cmpModel compares the implementation's result with the model's output line.
 func (r *runner) cmpModel(op string, o implOut, line string) {
-	if r.drv == nil || r.fail != nil {
+	if r.drv == nil {
+		// monitor-only mode (model dropped after a mismatch, or shrinking without
+		// a model): objects seen for the first time get the next free id
+		fresh := func(p any, isDir bool) {
+			if p == nil {
+				return
+			}
+			if isDir {
+				if _, ok := r.mDirID[p]; !ok {
+					r.bindModelDir(len(r.mDirs), p)
+				}
+			} else if _, ok := r.mLeafID[p]; !ok {
+				r.bindModelLeaf(len(r.mLeaves), p)
+			}
+		}
+		if o.status == "ok" {
+			if o.hasChild {
+				fresh(o.child, o.childIsDir)
+			}
+			for _, e := range o.reports {
+				if e.typed == "" && !e.lazy {
+					fresh(e.child, e.isDir)
+				}
+			}
+		}
+		return
+	}
+	if r.fail != nil {
 		return
 	}
 	bad := func(why string) {
@@ -1320,6 +1359,17 @@ func (r *runner) checkListing(line string, o implOut, ro rout, typed bool) {
 // invocation and invokes the removers selected by rmMask (inside the callback
 // when sync, after the traversal otherwise).
 func (r *runner) filter(line string, d any, rd *rdir, id, limit, rmMask int, sync bool) {
+	// Give every directory and leaf below d its identity first (the callbacks only
+	// hand out leaves and fetchers): the dumps name the children without
+	// initialising anything.
+	for n := -1; n != len(r.mDirs)+len(r.mLeaves) && r.fail == nil; {
+		n = len(r.mDirs) + len(r.mLeaves)
+		r.checkAll(line)
+		r.steps--
+	}
+	if r.fail != nil {
+		return
+	}
 	pre := r.snapshot()
 	mo := parseModel(r.ask(fmt.Sprintf("filter %d %d", id, limit)))
 	// reference: the multiset of things a full traversal visits
@@ -1327,10 +1377,13 @@ func (r *runner) filter(line string, d any, rd *rdir, id, limit, rmMask int, syn
 	var owners []*rdir
 	r.ref.walk(rd, map[*rdir]bool{}, &exp, &owners)
 	type call struct {
-		rep    irep
-		remove virtual.ChildRemover
-		result string
-		done   bool
+		rep     irep
+		remove  virtual.ChildRemover
+		result  string
+		done    bool
+		owner   *rdir // what the remover removed, as resolved on the reference hierarchy
+		name    int
+		wasInit map[*rdir]bool
 	}
 	var calls []*call
 	// applyRef performs on the reference hierarchy what the remover did: the
@@ -1352,18 +1405,23 @@ func (r *runner) filter(line string, d any, rd *rdir, id, limit, rmMask int, syn
 					cands = append(cands, owners[j])
 				}
 			}
+			// the directory that has just become initialised
 			for _, cand := range cands {
-				if cand.impl == nil {
+				if cand.impl == nil || c.wasInit[cand] {
 					continue
 				}
 				if dump, ok := virtual.VerifDumpDirectory(dirOf(cand.impl)); ok && dump.Initialized {
 					r.ref.removeAllChildren(cand, false)
+					c.owner = cand
 					return
 				}
 			}
-			if len(cands) > 0 {
-				r.ref.removeAllChildren(cands[0], false)
-				return
+			for _, cand := range cands {
+				if cand.impl == nil {
+					r.ref.removeAllChildren(cand, false)
+					c.owner = cand
+					return
+				}
 			}
 			r.violation("%s: remover of an uninitialised directory that the hierarchy does not have", line)
 			return
@@ -1388,17 +1446,29 @@ func (r *runner) filter(line string, d any, rd *rdir, id, limit, rmMask int, syn
 			_, gl := got.GetPair()
 			if err != nil || any(gl) != c.rep.child {
 				r.ref.vremove(owners[j], e.name, true, true)
+				c.owner, c.name = owners[j], e.name
 				return
 			}
 		}
 		if unbound >= 0 { // a directory the implementation has not handed out yet
 			r.ref.vremove(owners[unbound], exp[unbound].name, true, true)
+			c.owner, c.name = owners[unbound], exp[unbound].name
 			return
 		}
 		r.violation("%s: remover answered ok but no name of the file disappeared", line)
 	}
 	run := func(c *call) {
 		c.done = true
+		if c.rep.lazy {
+			c.wasInit = map[*rdir]bool{}
+			for j, e := range exp {
+				if e.lazy && owners[j].impl != nil {
+					if dump, ok := virtual.VerifDumpDirectory(dirOf(owners[j].impl)); ok && dump.Initialized {
+						c.wasInit[owners[j]] = true
+					}
+				}
+			}
+		}
 		func() {
 			defer func() {
 				if rec := recover(); rec != nil {
@@ -1475,40 +1545,68 @@ func (r *runner) filter(line string, d any, rd *rdir, id, limit, rmMask int, syn
 			}
 		}
 	}
-	// model: same sequence; removers become separate model operations
+	// model: the traversal order (leaves of a directory, then its sub-directories,
+	// both in list order) is the code's, not the property's: when the sequence of
+	// callbacks is the model's, everything is compared position by position;
+	// otherwise (the monitor above has accepted the visit as a legal one) the model
+	// is only told which removals took place.
 	if r.drv != nil && r.fail == nil {
-		bad := func(why string) {
-			r.mismatch("correspondence Model/Dir.lean filterWalk <-> filterChildrenRecursive", line+": "+why, strings.Join(mo.r, ";"), fmt.Sprintf("%d callbacks", len(calls)))
-		}
-		if mo.status != o.status || len(mo.r) != len(calls) {
-			bad("number of callbacks differs")
-		} else {
+		same := mo.status == o.status && len(mo.r) == len(calls)
+		var mfs [][]string
+		if same {
 			for i, c := range calls {
 				mf := strings.Split(mo.r[i], ":")
-				if len(mf) != 3 {
-					bad("malformed")
+				mfs = append(mfs, mf)
+				if len(mf) != 3 || c.rep.lazy != strings.HasPrefix(mf[2], "D") {
+					same = false
 					break
 				}
-				if c.rep.lazy != strings.HasPrefix(mf[2], "D") {
-					bad(fmt.Sprintf("callback %d: kind differs", i))
-					break
-				}
-				if !c.rep.lazy && !r.bindModelChild(mf[2], c.rep.child, false) {
-					bad(fmt.Sprintf("callback %d: leaf differs", i))
-					break
-				}
-				if c.done {
-					var ml string
-					if c.rep.lazy {
-						ml = fmt.Sprintf("removeallchildren %s 0", mf[2][1:])
-					} else {
-						ml = fmt.Sprintf("remove %s %s", mf[0], mf[1])
-					}
-					if got := parseModel(r.ask(ml)); got.status != c.result {
-						r.mismatch("correspondence Model/Dir.lean <-> ChildRemover", line+": "+ml, got.status, c.result)
+				if !c.rep.lazy {
+					if id, ok := r.mLeafID[c.rep.child]; ok && fmt.Sprintf("L%d", id) != mf[2] {
+						same = false
 						break
 					}
 				}
+			}
+		}
+		if !same {
+			r.counts["filter-order-differs-from-model"]++
+		}
+		for i, c := range calls {
+			if r.drv == nil {
+				break
+			}
+			if same && !c.rep.lazy && !r.bindModelChild(mfs[i][2], c.rep.child, false) {
+				r.mismatch("correspondence Model/Dir.lean filterWalk <-> filterChildrenRecursive", fmt.Sprintf("%s: callback %d: leaf differs", line, i), strings.Join(mo.r, ";"), fmt.Sprintf("%d callbacks", len(calls)))
+				break
+			}
+			if !c.done {
+				continue
+			}
+			// which entry went away is taken from the reference hierarchy's resolution
+			// (it looked at the implementation); the model's own position is only used
+			// when that directory has no model id yet
+			var ml string
+			id, ok := -1, false
+			if c.owner != nil && c.owner.impl != nil {
+				id, ok = r.mDirID[c.owner.impl]
+			}
+			switch {
+			case ok && c.rep.lazy:
+				ml = fmt.Sprintf("removeallchildren %d 0", id)
+			case ok:
+				ml = fmt.Sprintf("remove %d %d", id, c.name)
+			case same && c.rep.lazy:
+				ml = fmt.Sprintf("removeallchildren %s 0", mfs[i][2][1:])
+			case same:
+				ml = fmt.Sprintf("remove %s %s", mfs[i][0], mfs[i][1])
+			default:
+				r.drv = nil // cannot name the directory in model ids: continue under the monitor alone
+				continue
+			}
+			if got := parseModel(r.ask(ml)); got.status != c.result {
+				r.mismatch("correspondence Model/Dir.lean <-> ChildRemover", line+": "+ml, got.status, c.result)
+				break
 			}
 		}
 	}
@@ -1924,7 +2022,7 @@ func replay(lines []string, drv *hx.Driver, seed uint64) outcome {
 	if !r.dead {
 		r.apply("check")
 	}
-	return outcome{fail: r.fail, steps: r.steps, skipped: r.skipped, flags: r.flags, counts: r.counts}
+	return outcome{fail: r.result(), steps: r.steps, skipped: r.skipped, flags: r.flags, counts: r.counts}
 }
 
 func generate(rnd *hx.Rand, drv *hx.Driver, seed uint64, n int) ([]string, outcome) {
@@ -1957,7 +2055,7 @@ func generate(rnd *hx.Rand, drv *hx.Driver, seed uint64, n int) ([]string, outco
 	if !r.dead {
 		r.apply("check")
 	}
-	return lines, outcome{fail: r.fail, steps: r.steps, skipped: r.skipped, flags: r.flags, counts: r.counts}
+	return lines, outcome{fail: r.result(), steps: r.steps, skipped: r.skipped, flags: r.flags, counts: r.counts}
 }
 
 func main() {
@@ -2007,7 +2105,7 @@ func main() {
 
 	histories := 1500 * o.Scale
 	if o.Tier == "thorough" {
-		histories = 12000 * o.Scale
+		histories = 8000 * o.Scale
 	}
 	rnd := hx.NewRand(o.Seed)
 	for h := 0; h < histories && len(res.Findings) == 0; h++ {
